@@ -224,3 +224,54 @@ func TestVerifC05_Regress(t *testing.T) {
 		}
 	}
 }
+
+// Which of the two fuzzy algorithms evaluates a long line is part of the
+// result (V2 hands over to V1 when the line times the term exceeds the scratch
+// memory the callers provide, 100 K cells). That choice must depend on the
+// line and the term only, not on what the same scratch memory was used for
+// before: sequences of long lines on one production-size slab.
+func TestVerifC05_SlabLongLines(t *testing.T) {
+	rapid.Check(t, func(t *rapid.T) {
+		setScheme("default")
+		slab := util.MakeSlab(100*1024, 2048)
+		n := rapid.IntRange(2, 4).Draw(t, "ncalls")
+		key := ""
+		crossed := 0
+		for i := 0; i < n; i++ {
+			tlen := rapid.SampledFrom([]int{5000, 14000, 16000, 30000, 45000, 60000, 90000}).Draw(t, "tlen")
+			pat := []rune(rapid.SampledFrom([]string{"ab", "abc", "ba"}).Draw(t, "pat"))
+			text := make([]rune, tlen)
+			for k := range text {
+				text[k] = 'x'
+			}
+			// a scattered occurrence first, a contiguous one later: the greedy and the optimal algorithm disagree
+			p1 := rapid.IntRange(0, tlen/3).Draw(t, "scatteredAt")
+			for k, r := range pat {
+				text[p1+k*40] = r
+			}
+			p2 := rapid.IntRange(tlen/2, tlen-len(pat)).Draw(t, "contiguousAt")
+			copy(text[p2:], pat)
+			fwd := rapid.Bool().Draw(t, "fwd")
+			withPos := rapid.Bool().Draw(t, "withPos")
+			cs := util.RunesToChars(append([]rune{}, text...))
+			got, gotPos := FuzzyMatchV2(false, false, fwd, &cs, pat, withPos, slab)
+			ref := util.RunesToChars(append([]rune{}, text...))
+			var want Result
+			var wantPos *[]int
+			which := "V2"
+			if tlen*len(pat) > 100*1024 {
+				which = "V1"
+				crossed++
+				want, wantPos = FuzzyMatchV1(false, false, fwd, &ref, pat, withPos, nil)
+			} else {
+				want, wantPos = FuzzyMatchV2(false, false, fwd, &ref, pat, withPos, nil)
+			}
+			key += fmt.Sprintf("|%d,%s,%d,%d,%v,%v", tlen, string(pat), p1, p2, fwd, withPos)
+			if got.Score != want.Score || got.End != want.End || (withPos && (got.Start != want.Start || !reflect.DeepEqual(derefPos(gotPos), derefPos(wantPos)))) {
+				t.Fatalf("call %d of a sequence on one slab (%s): line of %d characters, term %q, fwd=%v withPos=%v: result %v %v, but %s on an unused evaluation gives %v %v",
+					i, key, tlen, string(pat), fwd, withPos, got, derefPos(gotPos), which, want, derefPos(wantPos))
+			}
+		}
+		vstat.Case("C05/slab-long-lines", key, crossed >= 1 && crossed < n, fmt.Sprintf("calls=%d", n))
+	})
+}
